@@ -3,6 +3,7 @@
 package msgpackpatch
 
 import (
+	"math"
 	"errors"
 
 	"github.com/hydraide/hydraide/app/verifrt"
@@ -30,6 +31,61 @@ func c13leaf(h *verifrt.H, name string) []byte {
 	return append([]byte{c.code}, h.Bytes(name+"Payload", c.width)...)
 }
 
+// c13decode reads a numeric leaf independently of the package under test, from the msgpack
+// specification: positive fixint 0x00-0x7f, negative fixint 0xe0-0xff (two's complement in the
+// code byte), uint8/16/32/64 = 0xcc-0xcf, int8/16/32/64 = 0xd0-0xd3, float32/64 = 0xca/0xcb,
+// big-endian payloads. class: 1 signed integer, 2 unsigned integer, 3 float (positive fixints
+// count as unsigned, negative fixints as signed, like the typed codes they abbreviate).
+func c13decode(raw []byte) (i int64, u uint64, f float64, class int) {
+	be := func(p []byte) uint64 {
+		var x uint64
+		for _, b := range p {
+			x = x<<8 | uint64(b)
+		}
+		return x
+	}
+	c := raw[0]
+	switch {
+	case c <= 0x7f:
+		return 0, uint64(c), 0, 2
+	case c >= 0xe0:
+		return int64(int8(c)), 0, 0, 1
+	case c == 0xcc:
+		return 0, be(raw[1:2]), 0, 2
+	case c == 0xcd:
+		return 0, be(raw[1:3]), 0, 2
+	case c == 0xce:
+		return 0, be(raw[1:5]), 0, 2
+	case c == 0xcf:
+		return 0, be(raw[1:9]), 0, 2
+	case c == 0xd0:
+		return int64(int8(raw[1])), 0, 0, 1
+	case c == 0xd1:
+		return int64(int16(be(raw[1:3]))), 0, 0, 1
+	case c == 0xd2:
+		return int64(int32(be(raw[1:5]))), 0, 0, 1
+	case c == 0xd3:
+		return int64(be(raw[1:9])), 0, 0, 1
+	case c == 0xca:
+		return 0, 0, float64(math.Float32frombits(uint32(be(raw[1:5])))), 3
+	case c == 0xcb:
+		return 0, 0, math.Float64frombits(be(raw[1:9])), 3
+	}
+	return 0, 0, 0, 0
+}
+
+func c13class(c numericClass) int {
+	switch c {
+	case classInt:
+		return 1
+	case classUint:
+		return 2
+	case classFloat:
+		return 3
+	}
+	return 0
+}
+
 // body {"a": leaf}
 func c13body(leaf []byte) []byte { return append([]byte{0x81, 0xa1, 'a'}, leaf...) }
 
@@ -52,9 +108,14 @@ func c13same(a, b []byte) bool {
 func VerifC13Compare(h *verifrt.H) {
 	a := c13leaf(h, "a")
 	b := c13leaf(h, "b")
-	ai, au, af, ac, ea := readNumericLeaf(a)
-	bi, bu, bf, bc, eb := readNumericLeaf(b)
+	// reference values come from c13decode (the specification), not from the package
+	ai, au, af, aclass := c13decode(a)
+	bi, bu, bf, bclass := c13decode(b)
+	xi, xu, xf, ac, ea := readNumericLeaf(a)
+	_, _, _, bc, eb := readNumericLeaf(b)
 	h.Assert(ea == nil && eb == nil && ac != classNone && bc != classNone, "numeric-leaves-decode")
+	h.Assert(c13class(ac) == aclass && c13class(bc) == bclass, "numeric-leaf-class-as-specified")
+	h.Assert(xi == ai && xu == au && (xf == af || xf != xf && af != af), "numeric-leaf-value-as-specified")
 	op := CondOp(h.Choose("condOp", 6))
 	body := c13body(a)
 	out, err := ApplyWithCondition(body, nil, &Condition{Path: "a", Op: op, Threshold: b})
@@ -103,8 +164,11 @@ func VerifC13Compare(h *verifrt.H) {
 func VerifC13Inc(h *verifrt.H) {
 	t := c13leaf(h, "t")
 	d := c13leaf(h, "d")
-	ti, tu, tf, tc, _ := readNumericLeaf(t)
-	di, du, df, dc, _ := readNumericLeaf(d)
+	ti, tu, tf, tclass := c13decode(t)
+	di, du, df, dclass := c13decode(d)
+	_, _, _, tc, _ := readNumericLeaf(t)
+	_, _, _, dc, _ := readNumericLeaf(d)
+	h.Assert(c13class(tc) == tclass && c13class(dc) == dclass, "numeric-leaf-class-as-specified")
 	body := append(c13body(t)[:0:0], c13body(t)...)
 	body[0] = 0x82
 	body = append(body, 0xa1, 'z', 0xc3) // second, untouched field z=true
@@ -126,8 +190,8 @@ func VerifC13Inc(h *verifrt.H) {
 	h.Assert(skel.MapFields[0].Key == "a" && skel.MapFields[1].Key == "z", "inc-field-order-kept")
 	h.Assert(c13same(leafBytes(skel.MapFields[1].Value, out), []byte{0xc3}), "inc-untouched-field-bytes-identical")
 	res := leafBytes(skel.MapFields[0].Value, out)
-	ri, ru, rf, rc, rerr := readNumericLeaf(res)
-	h.Assert(rerr == nil && rc == tc, "inc-keeps-numeric-class")
+	ri, ru, rf, rclass := c13decode(res)
+	h.Assert(rclass == tclass, "inc-keeps-numeric-class")
 	code := t[0]
 	fix := code <= 0x7f || code >= 0xe0
 	if !fix {
